@@ -299,6 +299,22 @@ func run(c *vf.Ctx) {
 	wg.Wait()
 
 	c.SetExhaustive(false)
+	// Minimums of overlap-dependent counters scale with the parallelism the machine offers: how often two
+	// free-running goroutines interleave inside a window of a few instructions is a property of the
+	// scheduler, not of the daemon. (Iteration counts, variants and the deterministic scenarios do not scale.)
+	par := runtime.NumCPU() // honours the affinity mask (taskset)
+	pf := map[int]float64{1: 0.15, 2: 0.4, 3: 0.7}[par]
+	if par >= 4 {
+		pf = 1
+	}
+	scaled := func(full, floor int) int {
+		if n := int(float64(full) * pf); n > floor {
+			return n
+		}
+		return floor
+	}
+	c.Extra("parallelism", par)
+	c.Extra("overlap_minimum_factor", pf)
 	c.Require("configurations", nCfg)
 	c.Require("evaluations", nCfg*4)
 	c.Require("nontrivial", nCfg/4)
@@ -312,14 +328,14 @@ func run(c *vf.Ctx) {
 	c.Require("shutdown_seen_waiting_for_live_workers", nCfg)                           // ... while workers were live
 	c.Require("configs_with_far_order_pair", nCfg/10)                                   // live workers whose orders differ by more than math.MaxInt
 	c.Require("stress_iterations", (plainBatches*plainIters+raceBatches*raceIters)*4/5) // a child killed by a defect loses the iterations since its last flush
-	c.Require("stress_calls_overlapping_shutdown", 2000)
+	c.Require("stress_calls_overlapping_shutdown", scaled(2000, 200))
 	c.Require("rereg_iterations", (plainBatches*plainIters+raceBatches*raceIters)/4)
 	c.Require("startup_iterations", (plainBatches*plainIters+raceBatches*raceIters)/8)
 	c.Require("startup_iterations_n2000", c.Pick(30, 600))
-	c.Require("startup_shutdown_requested_while_start_in_progress", c.Pick(150, 3000)) // the k-th started handler asked for the shutdown before Start() had returned
+	c.Require("startup_shutdown_requested_while_start_in_progress", scaled(c.Pick(150, 3000), 10)) // the k-th started handler asked for the shutdown before Start() had returned
 	c.Require("rereg_accepted", 10000)
-	c.Require("rereg_attempts_while_old_worker_exiting", 50) // refusals observed after the old handler had returned: the call raced the exit path
-	c.Require("rereg_accepted_early", 20)                    // ... and the retry was then accepted
+	c.Require("rereg_attempts_while_old_worker_exiting", scaled(50, 5)) // refusals observed after the old handler had returned: the call raced the exit path
+	c.Require("rereg_accepted_early", scaled(20, 3))                    // ... and the retry was then accepted
 	c.Assume("runtime.Stack(all) snapshots are consistent (stop-the-world); a process in which every goroutine is parked on a channel/sync primitive and no timer exists cannot make progress by itself (the daemon uses no timers and no logger unless DebugLogger is called)")
 	c.Assume("sync/atomic operations are sequentially consistent (logical clock, returned flags)")
 }
